@@ -1009,7 +1009,7 @@ func c33Judge(r *vkit.Run, cs *c33Case, res c33Result) {
 }
 
 func c33(r *vkit.Run) {
-	r.SetRule("one case = one connection over net.Pipe to the real bfe_http2 server (1-8 POST streams, sequential or concurrent; DATA 0..16384 octets, 1/3 padded with 0/1/7/100/255 pad octets; stream window 65535/20000/200000 via MaxUploadBufferPerStream; with and without the large connection receive window; client SETTINGS midway in 1/4). Handlers: read everything in 1..70000-octet reads (optionally started late), read N then return, never read, close the body and stay. Classes: clean, early-return, client-rst, body-close, beyond-content-length, excess (stream / connection window exceeded by 1,2,1000 after the client's view was made exact by quiescence). Oracles: excess => RST_STREAM or GOAWAY FLOW_CONTROL_ERROR and handler never sees the octets; per open stream whose handler consumed everything: sum(WINDOW_UPDATE)==sum(DATA flow length); per connection at final quiescence (all streams closed): same; a window that is still too small at quiescence when no handler can read further = stall. Quiescence = serve loop reports empty scheduler and no frame in flight, then PING round trip, twice. Non-trivial = case ran to its final check; distinct = full case description")
+	r.SetRule("one case = one connection over net.Pipe to the real bfe_http2 server (1-6 POST streams (1-2 extra in the excess class), sequential or concurrent; DATA 0..16384 octets, 1/3 padded with 0/1/7/100/255 pad octets; stream window 65535/20000/200000 via MaxUploadBufferPerStream; with and without the large connection receive window; client SETTINGS midway in 1/4). Handlers: read everything in 1..70000-octet reads, at most 800 reads per stream (optionally started late), read N then return, never read, close the body and stay. Classes: clean, early-return, client-rst, body-close, beyond-content-length, excess (stream / connection window exceeded by 1,2,1000 after the client's view was made exact by quiescence). Oracles: excess => RST_STREAM or GOAWAY FLOW_CONTROL_ERROR and handler never sees the octets; per open stream whose handler consumed everything: sum(WINDOW_UPDATE)==sum(DATA flow length); per connection at final quiescence (all streams closed): same; a window that is still too small at quiescence when no handler can read further = stall. Quiescence = serve loop reports empty scheduler and no frame in flight, then PING round trip, twice. Non-trivial = case ran to its final check; distinct = full case description")
 	r.Assume("x/net http2 Framer is the client codec; 'consumed' includes octets the server discards (stream closed/reset): RFC 7540 6.9 requires them to be counted and the statement requires that a respecting client never stalls")
 	if r.Replay != "" {
 		var cs c33Case
@@ -1025,7 +1025,7 @@ func c33(r *vkit.Run) {
 		r.SetMinDistinct(0)
 		return
 	}
-	n := envN(r.N(640, 12000))
+	n := envN(r.N(640, 9000))
 	for phase := 0; phase < 2; phase++ {
 		large := phase == 1
 		bfe_http2.VerifSetLargeConnRecvWindow(large)
